@@ -70,6 +70,9 @@ func Unlock(m *sync.Mutex, site string) {
 	li.owner = nil
 	m.Unlock()
 	s.wakeLockWaiters(uintptr(unsafe.Pointer(m)))
+	// releasing a lock is where another thread gets in: "looked under the lock, acts outside it"
+	// needs a preemption right here
+	s.yield(site)
 }
 
 // TryLock replaces (*sync.Mutex).TryLock.
@@ -124,6 +127,7 @@ func WUnlock(m *sync.RWMutex, site string) {
 	li.owner = nil
 	m.Unlock()
 	s.wakeLockWaiters(uintptr(unsafe.Pointer(m)))
+	s.yield(site)
 }
 
 // RLock replaces (*sync.RWMutex).RLock.
@@ -158,6 +162,7 @@ func RUnlock(m *sync.RWMutex, site string) {
 	li.readers--
 	m.RUnlock()
 	s.wakeLockWaiters(uintptr(unsafe.Pointer(m)))
+	s.yield(site)
 }
 
 // ---------------------------------------------------------------------------------------------
@@ -325,4 +330,50 @@ func (w SyncMapW) Range(f func(k, v any) bool) {
 			}
 		}
 	}
+}
+
+// PoolGet and PoolPut replace (*sync.Pool).Get and Put in woven code: one free list per pool
+// (newest, oldest or a fresh object comes back, by a seeded choice), owned by the running simulation (objects do not survive into the next run, as
+// they would not survive a collection), so that what Get returns is a function of the schedule.
+func PoolGet(p *sync.Pool) any {
+	s := active
+	if s == nil || s.aborting {
+		return p.Get()
+	}
+	if st := s.pools[p]; len(st) > 0 {
+		// which object comes back is the runtime's choice (the caller's own cache, another
+		// processor's, or none at all after a collection): a seeded choice here
+		switch s.Choose(SSched, 4) {
+		case 2:
+			x := st[0]
+			s.pools[p] = append(st[:0:0], st[1:]...)
+			return x
+		case 3:
+			if p.New != nil {
+				return p.New()
+			}
+		}
+		x := st[len(st)-1]
+		s.pools[p] = st[:len(st)-1]
+		return x
+	}
+	if p.New != nil {
+		return p.New()
+	}
+	return nil
+}
+
+func PoolPut(p *sync.Pool, x any) {
+	s := active
+	if s == nil || s.aborting {
+		p.Put(x)
+		return
+	}
+	if x == nil {
+		return
+	}
+	if s.pools == nil {
+		s.pools = map[*sync.Pool][]any{}
+	}
+	s.pools[p] = append(s.pools[p], x)
 }
